@@ -19,7 +19,7 @@ RULE = ('case = (implementation, input length, threads, chunk size, sort flag, i
         'over controller choices. distinct = distinct realised (impl, n, threads, chunk, sort, raise-set, '
         'finish sequence) tuples measured from f itself; non-trivial = threads>1 and n>=2 (a real pool ran) '
         'or a chunked() case with a non-multiple length')
-REQUIRED = ['parallel_runs', 'runs_with_exc_outputs', 'runs_with_none_outputs', 'runs_with_dict_outputs', 'orders_out_of_input_order', 'exceptions_propagated', 'chunked_checked',
+REQUIRED = ['parallel_runs', 'exceptions_propagated_stop', 'exceptions_propagated_base', 'exceptions_propagated_single_thread', 'runs_with_exc_outputs', 'runs_with_none_outputs', 'runs_with_dict_outputs', 'orders_out_of_input_order', 'exceptions_propagated', 'chunked_checked',
             'unsorted_runs', 'exhaustive_configs']
 ASSUMPTIONS = ['parallel_map is called from the main thread of a process (it needs the thread\'s asyncio event loop)',
                'completion order is dictated by releasing blocked calls of f one at a time; the realised order is '
@@ -255,6 +255,8 @@ def judge(cfg, ob, res: CaseResult):
         else:
             res.count('exceptions_propagated')
             res.count('exceptions_propagated_' + cfg.get('raise_type', 'boom'))
+            if cfg['threads'] == 1:
+                res.count('exceptions_propagated_single_thread')
         if any(c > 1 for c in ob['calls'].values()):
             res.violate(f'f invoked more than once for an element: {ob["calls"]}', witness=wit)
         return
@@ -412,6 +414,16 @@ def cases(tier, seed):
     rng.shuffle(enum_cfgs)
     for cfg in enum_cfgs:
         yield {'kind': 'enum', 'cfg': cfg}
+    # 3a. the single-thread shortcut: every exception type, every position, with and without the progress bar wrapper
+    seq = []
+    for impl in ('threading', 'iter', 'starmap'):
+        for rt in RAISE_TYPES:
+            for r in (0, 2, 3):
+                for tq in ((False, True) if impl == 'threading' else (False,)):
+                    seq.append({'impl': impl, 'n': 4, 'threads': 1, 'chunk': rng.choice([1, 2, 1000]), 'sort': True, 'policy': 'random', 'pseed': 1,
+                                'input': rng.choice(['list', 'gen', 'tuple']) if impl != 'starmap' else 'list', 'tqdm': tq, 'raise': [r], 'raise_type': rt})
+    for i in range(0, len(seq), 12):
+        yield {'kind': 'runs', 'cfgs': seq[i:i + 12]}
     # 3. random / adversarial orders on larger inputs
     total = 150 if tier == 'quick' else 6000
     batch = []
